@@ -128,7 +128,7 @@ func judgeSeq(pats []*ref.Pattern, src string, run engineRun, added ...ref.Impor
 	for _, p := range pats[:len(pats)-1] {
 		rw0 := ref.NewRewriter(p, false)
 		cur = rw0.Rewrite(cur)
-		if rw0.St.Unbound || rw0.St.Nested > 0 || rw0.St.Later > 0 || rw0.M.Steps > maxRefSteps {
+		if rw0.St.Unbound || rw0.St.Nested > 0 || rw0.St.Later > 0 || rw0.GaveUp() {
 			v.Inconcl = "earlier change leaves don't-care alternatives"
 			return v
 		}
@@ -149,7 +149,7 @@ func judgeSeq(pats []*ref.Pattern, src string, run engineRun, added ...ref.Impor
 		v.Inconcl = "plus side uses something the minus side does not bind"
 		return v
 	}
-	if rw.M.Steps > maxRefSteps {
+	if rw.GaveUp() {
 		v.Inconcl = "reference search too large"
 		return v
 	}
@@ -257,4 +257,21 @@ func sameImports(a, b []ref.Import) bool {
 
 func replayFiles(patchText, src, out string) map[string]string {
 	return map[string]string{"p.patch": patchText, "in.go": src, "actual.go": out}
+}
+
+// printerRepresents reports whether go/printer can represent the expected declaration: printing
+// it (first alternative of every don't-care node) and parsing the text back gives a tree the
+// expectation accepts. A generic instantiation turned into a call inside "[]T{}" for example
+// prints as a conversion "[]at(...)": no output of the engine could match such an expectation.
+func printerRepresents(decl *ref.N) bool {
+	file := &ref.N{Kind: "File", Kids: []*ref.N{{Kind: "leaf", Leaf: "p"}, decl}}
+	ok, txt := ref.Printable(file)
+	if !ok {
+		return false
+	}
+	back, _, _, err := ref.ParseFile([]byte(txt), true)
+	if err != nil || len(back.Decls) != 1 {
+		return false
+	}
+	return ref.Matches(back.Decls[0], ref.StripParens(decl))
 }
